@@ -1274,7 +1274,11 @@ def _run_case(case, ctx):
                     # a power of two scales every sample, every intermediate and the result exactly while nothing leaves
                     # the normal range: judged where the scaled values and their rounding errors (eps^2 S) stay normal
                     aw = np.abs(want)
-                    normal = np.isfinite(want) & (aw < 1e300) & ((aw > 1e-290) | ((want == 0.0) & (v0 == 0.0)))
+                    # (both sides: a base value in the subnormal range has already lost bits, so 2^k times it cannot be
+                    #  compared bit for bit with the cache of the scaled function)
+                    a0 = np.abs(v0)
+                    normal = (np.isfinite(want) & (aw < 1e300) & (a0 < 1e300)
+                              & (((aw > 1e-290) & (a0 > 1e-290)) | ((want == 0.0) & (v0 == 0.0))))
                     if env["S"] > 1e-250 and env["S"] / abs(sc) > 1e-250 and normal.any():
                         same = np.array([_bits(a) == _bits(b) for a, b in zip(V[normal], want[normal])])
                         ctx.mon("scale_exact", int(normal.sum()))
